@@ -6,6 +6,6 @@ HERE="$(cd "$(dirname "$0")" && pwd)"
 cd "$HERE"
 export CARGO_NET_OFFLINE=true
 export ZSIM_VERIF_DIR="$HERE"
-gcc -O2 -shared -fPIC -o shim/libzsimrandom.so shim/getrandom.c
+gcc -O2 -shared -fPIC -o shim/libzsimrandom.so shim/getrandom.c -ldl
 ( cd zsim && cargo build --release --offline )
 LD_PRELOAD="$HERE/shim/libzsimrandom.so" zsim/target/release/zsim selftest determinism --n 4
